@@ -791,7 +791,8 @@ class HaltTiming(Harness):
     bounds = {"quick": "1 target market (+1 non-target; one case with two targets of one rule), halt length L in {1,2}, sessions [4 steps] / [2 steps, 2 steps "
                        "execution] / [2 steps, 2 steps without execution], 2 agents quoting from step 1 on (buy/sell; "
                        "solver-chosen prices in [1,1000] at step 1, 300 afterwards), rate r in (0,1)",
-              "thorough": "5-step session with solver-chosen prices again at step 3 (second halt against the doubled line), L=1"}
+              "thorough": "5- and 6-step sessions with orders at solver-chosen prices at steps 1 and 3 only (second halt against "
+                          "the doubled line), L = 1, 2; the same with two resting bids swept by one sell of 2 lots"}
     assumptions = (rn.REDUCTION_NOTE,
                    "TradingHaltRule.setup() gets a concrete float rate; the attribute is overwritten with a solver real in (0,1)",)
     agreement_runs = 6
@@ -814,10 +815,11 @@ class HaltTiming(Harness):
         # trades at several prices during step 0 (the time-0 reference keeps moving), a later excursion at step 2
         out.append({"L": 1, "layout": [[3, True]], "M": 1, "step0": True})
         if tier == "thorough":
-            out.append({"L": 1, "layout": [[5, True]], "M": 1, "second": True})
+            out.append({"L": 1, "layout": [[5, True]], "M": 1, "second": True, "sparse": True})
+            out.append({"L": 2, "layout": [[6, True]], "M": 1, "second": True, "sparse": True})
             # two resting bids swept by one sell of 2 lots (several fills in the halting round), then a second
             # excursion after the resumption
-            out.append({"L": 1, "layout": [[5, True]], "M": 1, "second": True, "sweep": True})
+            out.append({"L": 1, "layout": [[5, True]], "M": 1, "second": True, "sweep": True, "sparse": True})
         return out
 
     def run(self, g, case):
